@@ -145,8 +145,9 @@ def run_lifetime(prop, lt, repo, tier, results=None, deadline=None, stop_on_viol
                 node.kill()
                 node = None
                 continue
-            if stop_on_violation and res.get("violation"):
-                break
+            if stop_on_violation and (res.get("violation") or res.get("soft")):
+                if effective_violation(prop, importlib.import_module(MACHINES[prop]), res):
+                    break
     finally:
         if node is not None:
             node.close()
@@ -357,10 +358,24 @@ def freeze(lt, results, upto):
     return out
 
 
-def first_violation(m, results):
+def effective_violation(prop, m, r, known=None):
+    """the hard violation of a history, else its first soft one that no open known finding explains"""
+    if r is None or r.get("status") != "ok":
+        return None
+    if r.get("violation"):
+        return r["violation"]
+    known = load_known() if known is None else known
+    for v in r.get("soft", []):
+        if match_known(prop, m.violation_class(v), known) is None:
+            return v
+    return None
+
+
+def first_violation(m, results, prop=None):
     for j, r in enumerate(results):
-        if r is not None and r.get("status") == "ok" and r.get("violation"):
-            return j, r["violation"]
+        v = effective_violation(prop or (m.PROP if hasattr(m, "PROP") else ""), m, r)
+        if v:
+            return j, v
     return None, None
 
 
@@ -485,23 +500,32 @@ def main():
     okr = [x for x in flat if x[3].get("status") == "ok"]
     timeouts = [x for x in flat if x[3].get("status") == "timeout"]
     herr = [x for x in flat if x[3].get("status") not in ("ok", "timeout")]
+    known = load_known()
+    for x in okr:
+        ev = effective_violation(prop, m, x[3], known)
+        if ev is not None and not x[3].get("violation"):
+            x[3]["violation"] = ev
     viol = [x for x in okr if x[3].get("violation")]
     cov = aggregate(m, okr)
-    known = load_known()
     exit_code = 0
     lines = []
     new_classes = {}
     known_hits = {}
+    for L, j, plan, r in okr:
+        for sv in r.get("soft", []):
+            k = match_known(prop, m.violation_class(sv), known)
+            if k is not None:
+                known_hits.setdefault(canon(m.violation_class(sv)), [k, 0, plan["seed"], sv])[1] += 1
     for L, j, plan, r in viol:
         vc = m.violation_class(r["violation"])
         k = match_known(prop, vc, known)
         key = canon(vc)
         if k is not None:
-            known_hits.setdefault(key, [k, 0, plan["seed"]])[1] += 1
+            known_hits.setdefault(key, [k, 0, plan["seed"], r["violation"]])[1] += 1
         else:
             new_classes.setdefault(key, []).append((L, j))
-    for key, (k, cnt, sd) in sorted(known_hits.items()):
-        lines.append(f"KNOWN-FINDING: property={prop} {k.get('what', key)} (met in {cnt} histories, e.g. seed {sd})")
+    for key, (k, cnt, sd, kv) in sorted(known_hits.items()):
+        lines.append(f"KNOWN-FINDING: property={prop} {k.get('what', key)} (met {cnt} times in this run, e.g. history seed {sd})")
     harness_problem = None
     replay_paths = []
     for key, where in sorted(new_classes.items(), key=lambda kv: kv[1][0])[:4]:
@@ -581,7 +605,7 @@ def main():
         "repo": repo,
     })
     if not a.no_evidence:
-        ok = write_evidence(prop, tier, seed, cov, time.monotonic() - t_start, len(viol) - sum(v[1] for v in known_hits.values()), getattr(m, "ASSUMPTIONS", []))
+        ok = write_evidence(prop, tier, seed, cov, time.monotonic() - t_start, sum(len(w) for w in new_classes.values()), getattr(m, "ASSUMPTIONS", []))
         if not ok and exit_code == 0:
             exit_code = 2
     for ln in lines:
